@@ -55,7 +55,7 @@ Proof.
   - discriminate.
   - destruct (assoc_get n s) as [y|] eqn:E; cbn [local_get].
     + rewrite assoc_set_get_same. reflexivity.
-    + destruct fr; [discriminate|]. cbn [local_get]. rewrite E. apply (IH x). exact H.
+    + destruct fr as [|k]; cbn [is_frame] in *; [discriminate|]. cbn [local_get is_frame]. rewrite E. apply (IH x). exact H.
 Qed.
 
 Lemma local_update_get_other : forall n v m ss,
@@ -65,7 +65,7 @@ Proof.
   - reflexivity.
   - destruct (assoc_get n s) as [y|] eqn:E; cbn [local_get].
     + rewrite (assoc_set_get_other n v m s H). reflexivity.
-    + destruct fr; cbn [local_get]; [reflexivity|]. rewrite IH. reflexivity.
+    + destruct fr as [|k]; cbn [local_get is_frame]; [reflexivity|]. rewrite IH. reflexivity.
 Qed.
 
 (* ------------------------------------------------------------------ *)
@@ -173,11 +173,11 @@ Qed.
 (* ------------------------------------------------------------------ *)
 (* C06: declarations and scopes *)
 
-Lemma declare_shadows : forall e n v,
-  env_get (env_declare (env_push e) n v) n = Some v /\
-  env_truncate (env_declare (env_push e) n v) (env_depth e) = e.
+Lemma declare_shadows : forall e k n v,
+  env_get (env_declare (env_push e k) n v) n = Some v /\
+  env_truncate (env_declare (env_push e k) n v) (env_depth e) = e.
 Proof.
-  intros [g ss] n v. split.
+  intros [g ss] k n v. split.
   - unfold env_get, env_declare, env_push. cbn [scopes globals local_get assoc_set assoc_get].
     rewrite str_eqb_refl. reflexivity.
   - unfold env_truncate, env_declare, env_push, env_depth. cbn [scopes globals List.length].
@@ -247,7 +247,7 @@ Proof. reflexivity. Qed.
 (* the same below any number of parameters / locals / loop scopes of the
    callee: what is found is found without looking past the frame *)
 Lemma local_get_frame : forall n inner s outer1 outer2,
-  local_get n (inner ++ (true, s) :: outer1) = local_get n (inner ++ (true, s) :: outer2).
+  local_get n (inner ++ (SFrame, s) :: outer1) = local_get n (inner ++ (SFrame, s) :: outer2).
 Proof.
   intros n inner s outer1 outer2. induction inner as [|[fr x] inner IH]; cbn [app local_get].
   - reflexivity.
@@ -255,7 +255,7 @@ Proof.
 Qed.
 
 Lemma local_update_frame : forall n v inner s outer,
-  exists inner' s', local_update n v (inner ++ (true, s) :: outer) = inner' ++ (true, s') :: outer /\
+  exists inner' s', local_update n v (inner ++ (SFrame, s) :: outer) = inner' ++ (SFrame, s') :: outer /\
                     List.length inner' = List.length inner.
 Proof.
   intros n v inner s outer. induction inner as [|[fr x] inner IH]; cbn [app local_update].
@@ -264,8 +264,8 @@ Proof.
     + exists [], s. split; reflexivity.
   - destruct (assoc_get n x).
     + exists ((fr, assoc_set n v x) :: inner), s. split; reflexivity.
-    + destruct fr.
-      * exists ((true, x) :: inner), s. split; reflexivity.
-      * destruct IH as (inner' & s' & -> & Hl). exists ((false, x) :: inner'), s'.
+    + destruct fr as [|k]; cbn [is_frame].
+      * exists ((SFrame, x) :: inner), s. split; reflexivity.
+      * destruct IH as (inner' & s' & -> & Hl). exists ((SLoop k, x) :: inner'), s'.
         split; [reflexivity|]. cbn [List.length]. rewrite Hl. reflexivity.
 Qed.
